@@ -10,11 +10,11 @@ from .num import Sym, Ite, lift, liftable, DomainError, symint, _num, _blift
 
 
 def _symscalar(x):
-    return isinstance(x, Sym) or type(x).__name__ == "Q"
+    return isinstance(x, Sym) or getattr(type(x), "_symx", False) or type(x).__name__ == "Q"
 
 
 def has_sym(x):
-    if isinstance(x, Sym):
+    if _symscalar(x):
         return True
     if isinstance(x, _np.ndarray):
         return x.dtype == object
@@ -87,6 +87,8 @@ class SymArray(_np.ndarray):
         super().__setitem__(_fix_key(key), val)
 
     def astype(self, dtype, *a, **k):
+        if type(dtype).__name__ == "_IntProxy":
+            dtype = int
         if self.dtype == object and core.active():
             dt = _np.dtype(dtype) if not isinstance(dtype, str) or dtype not in ("int",) \
                 else _np.dtype(int)
@@ -98,6 +100,17 @@ class SymArray(_np.ndarray):
                 return out.view(SymArray)
             if dt.kind == "f":
                 return self.copy()
+            if dt.kind == "M":
+                # symbolic datetimes -> integer count of the target unit since 0001-01-01
+                unit = _np.datetime_data(dt)[0]
+                div = {"us": 1, "ms": 10 ** 3, "s": 10 ** 6, "m": 60 * 10 ** 6, "h": 3600 * 10 ** 6,
+                       "D": 86400 * 10 ** 6}[unit]
+                out = _np.empty(self.shape, dtype=object)
+                o = out.reshape(-1)
+                for i, e in enumerate(self.reshape(-1)):
+                    us = e.us if hasattr(e, "us") else __import__("symx.symtime").symtime.us_of(e)
+                    o[i] = us // div
+                return out.view(SymArray)
             if dt.kind == "m":
                 # object arrays that stand for time differences hold integer nanoseconds
                 unit = _np.datetime_data(dt)[0]
